@@ -163,6 +163,8 @@ def make_faults():
     ret_fault("nested-result", const(["result", ["prim", "u8"], ["unit"], "std"]), wraps=("ok", "err"))
     ret_fault("option-of-result", const(["opt", ["result", ["prim", "u8"], ["unit"], "std"], "std"]), wraps=("plain",))
     ret_fault("write-in-output", const(raw("DiplomatWrite")), wraps=("plain", "ok"))
+    ret_fault("callback-in-output", const(["cb", [["prim", "u8"]], ["unit"], False]), wraps=("plain", "ok"))
+    param_fault("result-returned-by-callback", const(["cb", [], ["result", ["prim", "u8"], ["unit"], "std"], False]), depth=2)
 
     # write placement
     def write_not_last(prog, draw):
@@ -302,6 +304,15 @@ def make_faults():
     field_fault("opaque-by-value-in-field", with_opaque(lambda n: ["struct", n, []]))
     field_fault("box-in-input-struct-field", with_opaque(lambda n: ["box", n, []]))
     field_fault("write-in-field", const(raw("DiplomatWrite")))
+    def dv_trait(prog, draw, mod):
+        if "pub trait DvTrait { fn go(&self, x: u8) -> u8; }" not in mod.setdefault("raw_items", []):
+            mod["raw_items"].append("pub trait DvTrait { fn go(&self, x: u8) -> u8; }")
+        return raw("impl DvTrait")
+    field_fault("trait-in-field", dv_trait)
+    field_fault("trait-in-out-field", dv_trait, out=True)
+    ret_fault("trait-in-output", dv_trait, wraps=("plain", "ok"))
+    field_fault("callback-in-field", const(["cb", [["prim", "u8"]], ["unit"], False]))
+    field_fault("callback-in-out-field", const(["cb", [], ["prim", "u8"], False]), out=True)
     field_fault("ref-to-struct-in-field", with_struct(lambda n: ["ref", "static", False, n, []]))
     field_fault("std-option-of-primitive-in-out-field", const(["opt", ["prim", "u16"], "std"]), out=True)
     field_fault("opaque-by-value-in-out-field", with_opaque(lambda n: ["struct", n, []]), out=True)
